@@ -13,6 +13,7 @@ class Ctx:
 
     def __init__(self, registry):
         self.reg = registry
+        self.alias: dict = {}
         self.env = {
             "u8": lambda b, o=0: b[o],
             "u16": lambda b, o=0: int.from_bytes(bytes(b[o:o + 2]), "big") if len(b[o:o + 2]) == 2 else _short(),
@@ -31,12 +32,56 @@ class Ctx:
             "is_none": lambda x: x is None,
             "seq": lambda x: list(x) if x is not None else None,
             "fresh": lambda x: True,
-            "same": lambda a, b: a is b or a == b,
+            "same": self._same,
             "utf8": lambda s: s.encode("utf8"),
             "valid_utf8": _valid_utf8,
+            "wit": lambda x: True,
+            "joined": lambda f, n: b"".join(bytes(f(k)) for k in range(n)),
         }
         for name, sf in registry.specfns.items():
             self.env[name] = self._macro(sf)
+
+    def _same(self, a, b):
+        """reference identity; objects of the pre-state snapshot are identified with the objects they copy"""
+        a = self.alias.get(id(a), a)
+        b = self.alias.get(id(b), b)
+        if a is b:
+            return True
+        if isinstance(a, (int, float, str, bytes, tuple, type(None))) and isinstance(b, (int, float, str, bytes, tuple, type(None))):
+            return a == b
+        return False
+
+    def snapshot_all(self, local: dict) -> dict:
+        """deep copy of the inputs with one shared memo; remembers copy -> original for same()"""
+        memo: dict = {}
+        out = {}
+        for k, v in local.items():
+            try:
+                out[k] = copy.deepcopy(v, memo)
+            except Exception:
+                out[k] = v
+        # memo maps id(original) -> copy; originals are found by walking the inputs
+        originals = {}
+        stack = list(local.values())
+        seen = set()
+        while stack:
+            x = stack.pop()
+            if id(x) in seen:
+                continue
+            seen.add(id(x))
+            originals[id(x)] = x
+            if isinstance(x, (list, tuple, set)):
+                stack.extend(x)
+            elif isinstance(x, dict):
+                stack.extend(x.keys())
+                stack.extend(x.values())
+            elif hasattr(x, "__dict__"):
+                stack.extend(vars(x).values())
+        for oid, cp in memo.items():
+            if oid in originals and cp is not originals[oid]:
+                self.alias[id(cp)] = originals[oid]
+        self._keepalive = (memo, out)
+        return out
 
     def _macro(self, sf):
         tree = _Lazy().visit(ast.parse(textwrap.dedent(sf.body).strip(), mode="eval"))
@@ -109,25 +154,55 @@ def _valid_utf8(b):
         return False
 
 
+class _StripOld(ast.NodeTransformer):
+    def visit_Call(self, node):
+        self.generic_visit(node)
+        if isinstance(node.func, ast.Name) and node.func.id == "old" and len(node.args) == 1:
+            return node.args[0]
+        return node
+
+
 class _OldSubst(ast.NodeTransformer):
-    """old(e) is evaluated against the pre-state snapshot and replaced by a constant holder."""
+    """old(e) is evaluated against the pre-state snapshot.  Without bound variables it is replaced by a
+    constant holder; under forall/exists/joined lambdas it becomes a function of the bound variables whose
+    body is evaluated in the pre-state environment."""
 
     def __init__(self, ctx, old_local):
         self.ctx = ctx
         self.old_local = old_local
         self.n = 0
+        self.bound: list[str] = []
+
+    def visit_Lambda(self, node):
+        names = [a.arg for a in node.args.args]
+        self.bound.extend(names)
+        try:
+            node.body = self.visit(node.body)
+        finally:
+            del self.bound[len(self.bound) - len(names):]
+        return node
 
     def visit_Call(self, node):
         if isinstance(node.func, ast.Name) and node.func.id == "old":
-            expr = ast.Expression(node.args[0])
-            ast.fix_missing_locations(expr)
             env = dict(self.ctx.env)
             env.update(self.old_local)
-            val = eval(compile(expr, "<old>", "eval"), env, {})
+            used = [b for b in dict.fromkeys(self.bound)
+                    if any(isinstance(n, ast.Name) and n.id == b for n in ast.walk(node.args[0]))]
             name = f"__old{self.n}"
             self.n += 1
-            self.ctx.env[name] = val
-            return ast.copy_location(ast.Name(id=name, ctx=ast.Load()), node)
+            inner = _Lazy().visit(_StripOld().visit(node.args[0]))   # old(old(x)) == old(x)
+            if not used:
+                expr = ast.Expression(inner)
+                ast.fix_missing_locations(expr)
+                self.ctx.env[name] = eval(compile(expr, "<old>", "eval"), env, {})
+                return ast.copy_location(ast.Name(id=name, ctx=ast.Load()), node)
+            lam = ast.Expression(ast.Lambda(
+                args=ast.arguments(posonlyargs=[], args=[ast.arg(arg=b) for b in used], kwonlyargs=[], kw_defaults=[],
+                                   defaults=[]), body=inner))
+            ast.fix_missing_locations(lam)
+            self.ctx.env[name] = eval(compile(lam, "<old>", "eval"), env, {})
+            return ast.copy_location(ast.Call(func=ast.Name(id=name, ctx=ast.Load()),
+                                              args=[ast.Name(id=b, ctx=ast.Load()) for b in used], keywords=[]), node)
         return self.generic_visit(node)
 
 
